@@ -5,7 +5,7 @@ import re
 import vlib
 
 DEF = {"k": "", "t": 0, "id": 0, "op": "", "w": 0, "r": 0, "res": 0, "tk": 0, "opid": 0, "ex": 0, "bound": 0, "has": True, "val": 0,
-       "want": 0, "match": True, "kind": "", "slot": 0, "alive": 0, "listed": False, "falloc": 0, "flive": 0, "calloc": 0, "clive": 0,
+       "want": 0, "exp": 0, "kind": "", "slot": 0, "alive": 0, "listed": False, "falloc": 0, "flive": 0, "calloc": 0, "clive": 0,
        "nwf": 0, "status": "", "ib": True}
 L1_KINDS = {"call", "ret", "inv", "wait", "susp", "res", "spurious", "final", "done"}
 
@@ -22,7 +22,7 @@ def parse_wt(wt):
 def slot_bound(params):
     """upper bound on deposit-box slots of the futex box: one per waiter with futex rounds plus one per operation
     that can be between resume and finish at the same time (program threads + the driver's own wake_all)"""
-    nwf = sum(1 for b, kinds in parse_wt(params["wt"]) if any(c in "mxc" for c in kinds))
+    nwf = sum(1 for b, kinds in parse_wt(params["wt"]) if any(c in "mxcd" for c in kinds))
     return nwf + len(params["prog"].split("_")) + 1
 
 
@@ -42,7 +42,7 @@ def monitor_lines(events):
         elif k == "inv":
             out.append(dict(DEF, k="inv", t=e["t"], tk=e["tk"], opid=e["op"], ex=e["ex"]))
         elif k == "wait":
-            out.append(dict(DEF, k="wait", t=e["t"], w=e["w"], r=e["r"], kind=e["kind"], match=e["match"], tk=e["tk"], bound=e["bound"], ib=e.get("ib", True)))
+            out.append(dict(DEF, k="wait", t=e["t"], w=e["w"], r=e["r"], kind=e["kind"], exp=e.get("exp", 0), tk=e["tk"], bound=e["bound"], ib=e.get("ib", True)))
         elif k == "susp":
             out.append(dict(DEF, k="susp", t=e["t"], w=e["w"], r=e["r"], slot=e["slot"]))
         elif k == "res":
@@ -62,7 +62,7 @@ def params_of(wt, em, cex, prog):
 
 def gen_program(rng):
     """random scenario: (wt, em, cex, prog).  Every waiter is submitted by some thread; cancels/wakes/set-values race."""
-    style = rng.choice(["futex", "futex", "futex", "cancel", "task", "mixed"])
+    style = rng.choice(["futex", "futex", "futexv", "futexv", "cancel", "task", "mixed"])
     nw = rng.choice([1, 2, 2, 3])
     em = "".join(rng.choice("iq") for _ in range(2))
     cex = rng.choice(["u", "0", "1"])
@@ -71,6 +71,8 @@ def gen_program(rng):
         nr = rng.choice([1, 2, 2])
         if style == "futex":
             kinds = "".join(rng.choice("mmmmxc") for _ in range(nr))
+        elif style == "futexv":
+            kinds = "".join(rng.choice("mddd") for _ in range(nr))
         elif style == "cancel":
             kinds = "".join(rng.choice("nnnf") for _ in range(nr))
         elif style == "task":
@@ -82,7 +84,9 @@ def gen_program(rng):
     ops = []
     for w, (b, kinds) in enumerate(waiters):
         for r, c in enumerate(kinds):
-            if c in "mc":
+            if c == "d" or (c == "m" and style == "futexv"):
+                ops.append(rng.choice(["u.a", "u.k", "u.a", "a", "c%d%d" % (w, r)]))   # store then wake stay together
+            elif c in "mc":
                 ops.append(rng.choice(["k", "a", "k", "c%d%d" % (w, r)]))
                 if rng.random() < 0.5:
                     ops.append(rng.choice(["k", "a", "c%d%d" % (w, r)]))
